@@ -6,6 +6,8 @@ import re
 import struct
 import subprocess
 
+REPO_ROOT = os.environ.get("BTCSIM_REPO", "/repo").rstrip("/")
+
 L1 = "latin-1"
 
 
@@ -162,14 +164,14 @@ def sanitizer_site(raw):
     if kind is None:
         u = _ub_re.search(txt)
         if u:
-            return "ubsan:%s@%s" % (re.sub(r"[0-9]+", "N", u.group(4))[:60], os.path.relpath(u.group(1), "/repo"))
+            return "ubsan:%s@%s" % (re.sub(r"[0-9]+", "N", u.group(4))[:60], os.path.relpath(u.group(1), REPO_ROOT))
         kind = "unknown"
     site = "?"
     for line in txt.splitlines():
         fm = _frame_re.match(line)
-        if fm and fm.group(3).startswith("/repo/"):
+        if fm and fm.group(3).startswith(REPO_ROOT + "/"):
             fn = re.sub(r"\(.*$", "", fm.group(2))
-            site = "%s:%s" % (os.path.relpath(fm.group(3), "/repo"), fn)
+            site = "%s:%s" % (os.path.relpath(fm.group(3), REPO_ROOT), fn)
             break
     return "%s@%s" % (kind, site)
 
